@@ -7,6 +7,7 @@ mod c15;
 mod c11;
 mod c10;
 mod pg;
+mod pgref;
 mod aut;
 mod dom;
 mod autprops;
